@@ -85,7 +85,7 @@ def getRange (s : S) (start stop : Int) : Option (Option Bytes) :=
   let bl : Int := v.length
   let start := if start < 0 then bl + start else start
   if start ≥ bl then some none else
-  let stop := stop + 1
+  let stop := wrap64 (stop + 1)                 -- `end += 1` wraps at int64 max
   let stop := if stop ≤ 0 then stop + bl else stop
   let stop := if stop > bl then bl else stop
   if start > stop then some none else
